@@ -13,6 +13,14 @@ def mac(i):
         return bytes(i)
     return bytes([0x02, 0x00, (i >> 24) & 0xFF, (i >> 16) & 0xFF, (i >> 8) & 0xFF, i & 0xFF])
 
+def twin(addr, pos, delta=None):
+    """the address that differs from addr in octet pos only (stays unicast)"""
+    b = bytearray(addr); b[pos] ^= (0x02 if pos == 0 else 0x40) if delta is None else delta
+    return bytes(b)
+TWIN0 = bytes([0x02, 0x15, 0x5d, 0x3a, 0x7c, 0x91])
+# stations that differ from TWIN0 in exactly one octet each (an address comparison that skips or folds octets confuses them)
+TWINS = [TWIN0] + [twin(TWIN0, p_) for p_ in range(6)]
+
 def hx(b):
     return b.hex() if b else '-'
 
